@@ -1011,20 +1011,33 @@ def run_property(ctx, prop):
     # (4) binding self-test (thorough): corrupted recordings must be rejected by TLC
     if T:
         allr = [(l, r) for l, r in zip(lines + lines2, refs + refs2)]
-        good = [l for l, r in allr if l["ev"] == "exec" and l["outcome"] == "ok" and len([s for s in l["seq"] if not s.get("sid")]) >= 2
-                and not any(s.get("sid") for s in l["seq"]) and len({s["key"] for s in l["seq"]}) == len(l["seq"])][:40]
+        cand = [l for l, r in allr if l["ev"] == "exec" and l["outcome"] == "ok" and len(l.get("flows", [])) == 1 and len(l["seq"]) >= 3
+                and not any(s.get("sid") for s in l["seq"]) and len({s["key"] for s in l["seq"]}) == len(l["seq"])][:120]
         loads = {l["id"]: l for l, r in allr if l["ev"] == "load"}
+        # the property claims nothing about configurations that are not WellFormed: TLC tells which recordings it is bound
+        # to (a walk consisting of one processor that is on no connection is rejected exactly for those)
+        probes = []
+        for g in cand:
+            e = json.loads(json.dumps(g))
+            e["seq"] = [dict(e["seq"][0], key="zz-on-no-connection")]
+            e["id"] = g["id"] + "#probe"
+            probes += [loads[g["id"].split("/")[0]], e]
+        bound = {i // 2 for i, _ in judge(ctx, probes, "C04", "selftest-probe")}
+        good = [g for k, g in enumerate(cand) if k in bound][:40]
         if len(good) < 10:
-            raise Broken("self-test: not enough recorded walks")
+            raise Broken("self-test: not enough recorded walks the property is bound to (%d of %d)" % (len(good), len(cand)))
         corrupted, expect = [], []
         for g in good:
             ld = loads[g["id"].split("/")[0]]
-            for variant in ("swap", "drop", "crash", "steps"):
+            for variant in ("swap", "drop", "insert", "crash", "steps"):
                 e = json.loads(json.dumps(g))
-                if variant == "swap":
+                if variant == "swap":              # the entry processor and its successor exchanged
                     e["seq"][0], e["seq"][1] = e["seq"][1], e["seq"][0]
-                elif variant == "drop":
-                    e["seq"] = e["seq"][:-1]
+                elif variant == "drop":            # a processor missing from the middle of the walk
+                    del e["seq"][1]
+                elif variant == "insert":          # a processor that is on no connection
+                    e["seq"].insert(1, dict(e["seq"][1], key="zz-on-no-connection"))
+                    e["steps"] += 1
                 elif variant == "crash":
                     e["outcome"] = "crash"
                 else:
@@ -1033,7 +1046,7 @@ def run_property(ctx, prop):
                 corrupted += [ld, e]
                 expect.append((len(corrupted) - 1, variant))
         rejc = {i for i, _ in judge(ctx, corrupted, prop, "selftest")}
-        want = {"C04": ("swap", "drop"), "C05": ("crash", "steps")}[prop]
+        want = {"C04": ("swap", "drop", "insert"), "C05": ("crash", "steps")}[prop]
         missed = [(i, v) for i, v in expect if v in want and i not in rejc]
         if missed:
             raise Broken("self-test: %d corrupted recordings accepted, e.g. %s" % (len(missed), json.dumps(corrupted[missed[0][0]])[:600]))
